@@ -14,6 +14,13 @@ use std::io::Write;
 fn builder(cs: &CompilerState, writer: &mut dyn Write, args: &Args) -> Result<(), Error> {
     let mut g = GeneratorState::new(cs, writer, args.insert_code, args.warnings.clone(), "4K");
     for v in cs.sorted_variables().iter() {
+        // every variable with what the interpreter needs to lay it out: element type, element count, whether the name is a constant address (an array) or a cell (a variable)
+        g.write(&format!("VAR {} type={:?} size={} const={}\n", v.0, v.1.var_type, v.1.size, v.1.var_const))?;
+        if let VariableDefinition::ArrayOfPointers(a) = &v.1.def {
+            let mut s = String::new();
+            for x in a { s += &format!("{}+{} ", x.0, x.1); }
+            g.write(&format!("PTRS {} size={} = {}\n", v.0, a.len(), s))?;
+        }
         if let VariableDefinition::Value(VariableValue::Int(val)) = &v.1.def {
             g.write(&format!("CONST {} = {}\n", v.0, val))?;
         }
